@@ -57,7 +57,7 @@ int main(int argc, char **argv)
     fprintf(stderr, "unknown profile %s\n", a.profile);
     return 2;
   }
-  lg_nodup_blank_rate = (unsigned)vh_opt_int(&a, "nodup_blank_rate", 20000);
+  lg_nodup_blank_rate = (unsigned)vh_opt_int(&a, "nodup_blank_rate", 1);
   lg_parts = (unsigned)vh_opt_int(&a, "parts", 0xff);
   L = (int)vh_opt_int(&a, "L", 4);
   if (L < 0 || L > 8) {
